@@ -94,12 +94,20 @@ fn inc(x: u64) -> u64 { x.wrapping_add(1) }
 
 #[inline(never)] pub fn t57(a: u64, b: u64) -> u64 { let s = small(a); let mut x: u64 = b; let mut y: u8 = 0; for (i, e) in s.iter().enumerate() { if i % 2 == 0 { y ^= e; } else { y |= e; } let w = u64::from(*e) << (8 * i); x ^= &w; x &= &!(1u64 << 63); } x.wrapping_add(u64::from(y)) }
 
+#[inline(never)] pub fn t58(a: u64, b: u64) -> u64 { let s = small(a); let i = (b % 4) as usize; let j = i + ((b >> 2) % 3) as usize; let w = &s[i..j]; let sum: u64 = w.iter().map(|&x| u64::from(x)).sum(); let pos = w.iter().position(|&x| x == 3).map_or(9, |p| p as u64); let tail = &s[j..]; let cnt = tail.iter().filter(|&&x| x > 2).count() as u64; let first = w.first().map_or(8, |&x| u64::from(x)); sum + 100 * pos + 1000 * cnt + 10_000 * first + 100_000 * (w.len() as u64) + 1_000_000 * u64::from(w.is_empty()) }
+
+#[inline(never)] pub fn t59(a: u64, b: u64) -> u64 { let s = small(a); let i = (b % 5) as usize; let j = i + ((b >> 3) % 2) as usize; let w = &s[i..j]; let x = match w.split_first() { Some((f, rest)) => u64::from(*f) * 10 + rest.len() as u64, None => 99 }; let y = match s[i..].split_last() { Some((l, rest)) => u64::from(*l) * 10 + rest.len() as u64, None => 98 }; x + 1000 * y }
+
+#[inline(never)] pub fn t60(a: u64, b: u64) -> u64 { let words = ["Hash", "VALUE", "x9Z", "name"]; let w = words[(a % 4) as usize]; let mut out = String::with_capacity(8); if w.is_ascii() { out.extend(w.bytes().map(|c| char::from(c.to_ascii_lowercase()))); } out.push(' '); out.push_str(words[(b % 4) as usize]); let up = (b as u8 % 26 + 97).to_ascii_uppercase(); out.bytes().fold(u64::from(up), |acc, c| (acc * 131 + u64::from(c)) % 1_000_000_007) }
+
+#[inline(never)] pub fn t61(a: u64, b: u64) -> u64 { let s = small(a); let mut v: Vec<u8> = s.to_vec(); let opts = [opt(b).map(|x| (x % 7) as u8), Some(9), opt(b >> 1).map(|x| (x % 5) as u8)]; v.splice(1..3, opts.into_iter().flatten()); v.splice(..1, [7u8, 7]); v.iter().fold(0u64, |acc, &e| (acc * 11 + u64::from(e)) % 1_000_003) + 1_000_003 * v.len() as u64 }
+
 fn main() {
     let args: Vec<String> = std::env::args().collect();
     let id: usize = args[1].parse().unwrap();
     let a: u64 = args[2].parse().unwrap();
     let b: u64 = args[3].parse().unwrap();
-    let fs: [fn(u64, u64) -> u64; 58] = [t00, t01, t02, t03, t04, t05, t06, t07, t08, t09, t10, t11, t12, t13, t14, t15, t16, t17, t18, t19, t20, t21, t22, t23, t24, t25, t26, t27, t28, t29, t30, t31, t32, t33, t34, t35, t36, t37, t38, t39, t40, t41, t42, t43, t44, t45, t46, t47, t48, t49, t50, t51, t52, t53, t54, t55, t56, t57];
+    let fs: [fn(u64, u64) -> u64; 62] = [t00, t01, t02, t03, t04, t05, t06, t07, t08, t09, t10, t11, t12, t13, t14, t15, t16, t17, t18, t19, t20, t21, t22, t23, t24, t25, t26, t27, t28, t29, t30, t31, t32, t33, t34, t35, t36, t37, t38, t39, t40, t41, t42, t43, t44, t45, t46, t47, t48, t49, t50, t51, t52, t53, t54, t55, t56, t57, t58, t59, t60, t61];
     let r = std::panic::catch_unwind(|| fs[id](a, b));
     match r { Ok(v) => println!("OK {v}"), Err(_) => println!("PANIC") }
 }
